@@ -51,11 +51,15 @@ static std::atomic<int> g_badSocketInServe(0);
 struct Server : public SocketServer
 {
 	int serveDelayUs;
-	Server() : serveDelayUs(0) {}
+	bool keepCopies;                 // the application keeps a copy of every client socket (e.g. a broadcast list)
+	std::mutex regmu;
+	std::vector<Socket> registry;
+	Server() : serveDelayUs(0), keepCopies(false) {}
 	int port() { return _sockets.length() ? _sockets[0].localAddress().port() : 0; }
 	void serve(Socket client)
 	{
 		int fd = client.handle();
+		if (keepCopies) { std::lock_guard<std::mutex> l(regmu); registry.push_back(client); }
 		String line;
 		if (client.waitInput(3)) line = client.readLine();   // token line, or nothing if the peer already closed
 		std::string token = *line;
@@ -167,29 +171,39 @@ static void clientThread(bool unixSock, int port, std::string path, std::string 
 static void mode_hist(vf::Ctx& c)
 {
 	bool unixSock = c.rng.chance(0.3), sequential = c.rng.chance(0.35);
+	bool blockingStart = c.rng.chance(0.3);   // start() run in an application thread instead of start(true)
+	bool keepCopies = c.rng.chance(0.3);
 	int N = c.rng.chance(0.1) ? 0 : (c.rng.chance(0.2) ? c.rng.range(50, 200) : c.rng.range(1, 30));
 	int nClientThreadsMax = 16;
 	int stopWhen = c.rng.below(3);  // 0 = before/while clients connect, 1 = mid-burst, 2 = after all clients are done
 	uint64_t seed = c.rng.next();
-	int jm = c.rng.below(3);
+	int jm = c.rng.below(4);
 	std::string path = c.opt->out + vf::fmt("/s%llu.sock", (unsigned long long)c.idx);
 	unlink(path.c_str());
-	c.desc(vf::fmt("%s %s, %d clients, stop %s, jitter %d", unixSock ? "unix" : "tcp", sequential ? "sequential" : "concurrent", N,
-	               stopWhen == 0 ? "early" : stopWhen == 1 ? "mid-burst" : "after all", jm));
+	c.desc(vf::fmt("%s %s%s%s, %d clients, stop %s, jitter %d", unixSock ? "unix" : "tcp", sequential ? "sequential" : "concurrent", blockingStart ? ", start() in its own thread" : "",
+	               keepCopies ? ", serve() keeps a copy of each socket" : "", N, stopWhen == 0 ? "early" : stopWhen == 1 ? "mid-burst" : "after all", jm));
 	Log log;
 	g_log = &log;
 	g_badSocketInServe = 0;
 	if (jm == 1) sched::jitter(seed, 0.3, 300);
 	else if (jm == 2) sched::jitter(seed, 0.05, 2000);
+	else if (jm == 3) sched::jitter(seed, 1.0, 160000, 1u << ASL_VP_THREAD_ENTRY);   // every new thread starts late (longer than stop()'s 100 ms poll)
 	else sched::jitter(seed, 0.0, 0);
 
 	Server* srv = new Server;
 	srv->serveDelayUs = c.rng.chance(0.5) ? 0 : c.rng.range(100, 20000);
 	srv->setSequential(sequential);
+	srv->keepCopies = keepCopies;
 	bool bound = unixSock ? srv->bindPath(path.c_str()) : srv->bind("127.0.0.1", 0);
 	if (!bound) { delete srv; g_log = 0; sched::off(); c.inconclusive("bind-failed"); return; }
 	int port = unixSock ? 0 : srv->port();
-	srv->start(true);
+	std::thread starter;
+	if (blockingStart) {
+		starter = std::thread([&]() { srv->start(); });
+		// the blocking start() marks the server as running before it enters the accept loop; wait for that like an application would
+		for (int i = 0; i < 2000 && !srv->running(); i++) { struct timespec ts = {0, 1000000}; nanosleep(&ts, 0); }
+	}
+	else srv->start(true);
 
 	std::vector<std::thread> clients;
 	std::vector<std::string> tokens;
@@ -214,10 +228,11 @@ static void mode_hist(vf::Ctx& c)
 	srv->stop(true);
 	bool runningAfter = srv->running();
 	log.add(STOP_RETURNED);
+	{ std::lock_guard<std::mutex> l(srv->regmu); srv->registry.clear(); }
 	if (late.joinable()) late.join();
 	// connections attempted after stop(true) returned must never be served
 	std::vector<std::thread> post;
-	int npost = c.rng.range(0, 3);
+	int npost = c.rng.range(blockingStart ? 1 : 0, 3);
 	for (int i = 0; i < npost; i++) {
 		std::string tok = vf::fmt("P%llu-%d", (unsigned long long)c.idx, i);
 		post.emplace_back([=]() {
@@ -233,6 +248,7 @@ static void mode_hist(vf::Ctx& c)
 	}
 	for (auto& t : post) t.join();
 	for (auto& t : clients) t.join();
+	if (blockingStart) starter.join();   // the accept loop has ended, so the blocking start() call returns by itself
 	delete srv;
 	log.add(DESTROYED);
 	{ struct timespec ts = {0, 200000000}; nanosleep(&ts, 0); }   // a thread touching the destroyed server now is caught by ASan
